@@ -23,7 +23,23 @@ func (w *World) tagNum(name string) *Term {
 	}
 	n, ok := w.tags[name]
 	if !ok {
-		n = len(w.tags) + 1
+		// a number that depends on the name only (not on which tags were asked for before): query text must not depend on
+		// the order of generation. FNV-1a, 40 bits; a collision between two names in use is checked and made distinct.
+		h := uint64(14695981039346656037)
+		for i := 0; i < len(name); i++ {
+			h ^= uint64(name[i])
+			h *= 1099511628211
+		}
+		n = int(h&(1<<40-1)) + 1
+		for used := true; used; {
+			used = false
+			for _, v := range w.tags {
+				if v == n {
+					used = true
+					n++
+				}
+			}
+		}
 		w.tags[name] = n
 	}
 	return IntLit(int64(n))
